@@ -730,7 +730,11 @@ func (a *Assembler) AssembleWithContext(netFlow gopacket.Flow, t *layers.TCP, ac
 	}
 	if action.nextSeq != invalidSequence {
 		half.nextSeq = action.nextSeq
-		if t.FIN {
+		// The FIN consumes a sequence number only once it has been
+		// delivered (which closes the half). When a buffer limit forced
+		// out older data while this FIN packet was merely queued, adding
+		// one here shifts the stream by a byte.
+		if t.FIN && half.closed {
 			half.nextSeq = half.nextSeq.Add(1)
 		}
 	}
